@@ -30,7 +30,8 @@ func LimitCryptionHandler(limitBytes int64, key []byte) func(http.Handler) http.
 			cw := newCryptionResponseWriter(w)
 			defer cw.flush(r.Context(), key)
 
-			if r.ContentLength <= 0 {
+			// no body at all; an unknown length (-1, chunked transfer encoding) may still carry one
+			if r.ContentLength == 0 {
 				next.ServeHTTP(cw, r)
 				return
 			}
@@ -60,6 +61,12 @@ func decryptBody(limitBytes int64, key []byte, r *http.Request) error {
 	}
 	if err != nil {
 		return err
+	}
+
+	// a request of unknown length that turned out to carry no body
+	if len(content) == 0 {
+		r.Body = http.NoBody
+		return nil
 	}
 
 	content, err = base64.StdEncoding.DecodeString(string(content))
